@@ -104,6 +104,11 @@ def check_tanks(c, wn, tr, spec, sample):
         moved = 0.0
         qmax = 0.0
         was_rev = []
+
+        def rev_kind(what, pumps):
+            # power pumps may sit on the turbine root of their row (known finding); a head pump carrying reverse flow is a defect again
+            power = all(wn.get_link(ln).pump_type == 'POWER' for ln in pumps)
+            return '%s_via_reverse_%s_pump' % (what, 'power' if power else 'head')
         domain_ok = True
         if curve is not None:
             # the simulator evaluates the tank level one full hydraulic step ahead before it backtracks; a volume
@@ -156,7 +161,7 @@ def check_tanks(c, wn, tr, spec, sample):
                    if wn.get_link(ln).link_type == 'Pump' and f is not None and f < -ref.QTOL]
             slackV = 2.0 * qmax + ref.HTOL * local_area(lev) + 1e-9
             if V(lev) < V(tank.min_level) - slackV and lev < tank.min_level:
-                c.violate('below_min_via_reverse_pump' if rev or was_rev else 'below_min_level',
+                c.violate(rev_kind('below_min', rev or was_rev) if rev or was_rev else 'below_min_level',
                           'tank %s t=%s level %.6f below min_level %.6f by %.4g m3 (2 s of flow = %.4g m3)%s' % (
                     name, a['t'], lev, tank.min_level, V(tank.min_level) - V(lev), 2 * qmax,
                     ' - drained backwards through pump %s' % (rev or was_rev) if (rev or was_rev) else ''),
@@ -168,7 +173,7 @@ def check_tanks(c, wn, tr, spec, sample):
                 hit.add('min')
                 c.count('at_min_steps')
                 if q < -(ref.QTOL * nl + 1e-6):
-                    c.violate('discharge_at_min_via_reverse_pump' if rev else 'discharge_at_min',
+                    c.violate(rev_kind('discharge_at_min', rev) if rev else 'discharge_at_min',
                               'tank %s t=%s at level %.6f <= min_level %.6f but net inflow %.6g%s' % (
                         name, a['t'], lev, tank.min_level, q, ' - backwards through pump %s' % rev if rev else ''),
                         tank=name, t=a['t'], level=lev, inflow=q, flows=a['tank_link_flow'][name], sample=sample)
